@@ -13,7 +13,16 @@
 //!   tx-pool is empty.  As in `CompactBlockProcess::execute`, `CompactBlockVerifier::verify` runs
 //!   first and reconstruction only on success.
 //!
+//!   btxv sids=<ids> pre=<i:t;…> idx=<indexes> txs=<ids>  -> panic | length | shortids | ok
+//!      the real `BlockTransactionsVerifier::verify` (verif-hooks pass-through) on that compact block, the indexes
+//!      "requested" and the transactions "received"
+//!   unv uncles=<n> idx=<indexes> recv=<uncle ids>         -> length | unmatched | ok total | ok panic
+//!      the real `BlockUnclesVerifier::verify`, then — only on ok, as `BlockTransactionsProcess::execute` does — the real
+//!      `Relayer::reconstruct_block` with those uncle indexes / received uncles (`panic` = it panicked)
+//!
 //! Oracle (implementation alone):
+//!   btx-verifier-panic           `BlockTransactionsVerifier::verify` panics (indexes at or above txs_len included: they
+//!                                come from another peer's variant of the compact block, /repo 804c7e9)
 //!   reconstruct-header-differs   Block(b) but b.hash() != hash of the compact header (whose PoW was checked)
 //!   reconstruct-wrong-body       Block(b) but b's transactions are not the list the header root commits to /
 //!                                proposals or uncle hashes differ from the compact block
@@ -24,6 +33,7 @@
 //!
 //! Stream `codec`: the production `LengthDelimitedCodecWithCompress` — see c16_codec.rs.
 //! Stream `recv`: the real `Synchronizer::received` / `Relayer::received` — see c16_recv.rs.
+//! Stream `proto`: filter / light-client / time handlers and the discovery / identify / ping decoders — see c16_proto.rs.
 //!
 //! Stream `frame` (model: `Model/Frame.lean`):
 //!   dec v <hex>   -> err | raw <len> | snappy <len>    frames whose snappy body is known to be valid
@@ -36,8 +46,10 @@ use crate::node::*;
 mod codec;
 #[path = "c16_recv.rs"]
 mod recv;
+#[path = "c16_proto.rs"]
+mod proto;
 use ckb_network::compress::{compress, decompress};
-use ckb_sync::{ReconstructionResult, Relayer, StatusCode, SyncShared, verif_compact_block_verify};
+use ckb_sync::{ReconstructionResult, Relayer, StatusCode, SyncShared, verif_block_transactions_verify, verif_block_uncles_verify, verif_compact_block_verify};
 use ckb_types::core::{BlockView, HeaderBuilder, TransactionBuilder, TransactionView, UncleBlockView};
 use ckb_types::packed::{self, Byte32, CellOutput};
 use ckb_types::prelude::*;
@@ -277,6 +289,158 @@ impl World {
     }
 }
 
+impl World {
+    fn simple_cb(&self, sids: &[usize], pre: &[(usize, usize)], n_uncles: usize) -> packed::CompactBlock {
+        let header = HeaderBuilder::default().number(1u64).epoch(ckb_types::core::EpochNumberWithFraction::new(0, 1, 10).full_value()).timestamp(12345u64).build();
+        packed::CompactBlock::new_builder()
+            .header(header.data())
+            .short_ids(packed::ProposalShortIdVec::new_builder().set(sids.iter().map(|i| self.txs[*i].proposal_short_id()).collect()).build())
+            .prefilled_transactions(packed::IndexTransactionVec::new_builder().set(pre.iter().map(|(idx, t)| packed::IndexTransaction::new_builder().index(*idx as u32).transaction(self.txs[*t].data()).build()).collect()).build())
+            .uncles(packed::Byte32Vec::new_builder().set(self.uncles.iter().take(n_uncles).map(|u| u.hash()).collect()).build())
+            .build()
+    }
+
+    /// one `btxv` line on the real verifier
+    fn btxv(&self, out: &mut Out, line: &str) -> String {
+        let f = |k: &str| -> String { line.split(' ').find_map(|t| t.strip_prefix(&format!("{k}="))).unwrap_or_else(|| panic!("missing {k}")).to_string() };
+        let sids = parse_list(&f("sids"));
+        let pre: Vec<(usize, usize)> = if f("pre") == "-" { vec![] } else { f("pre").split(';').map(|p| { let (a, b) = p.split_once(':').expect("pre pair"); (a.parse().unwrap(), b.parse().unwrap()) }).collect() };
+        let idx = parse_list(&f("idx"));
+        let txs: Vec<TransactionView> = parse_list(&f("txs")).iter().map(|i| self.txs[*i].clone()).collect();
+        let cb = self.simple_cb(&sids, &pre, 0);
+        let indexes: Vec<u32> = idx.iter().map(|i| *i as u32).collect();
+        let txs_len = sids.len() + pre.len();
+        if idx.iter().any(|i| *i >= txs_len) {
+            out.count("btxv-index-past-txs-len");
+        }
+        match catch_unwind(AssertUnwindSafe(|| verif_block_transactions_verify(&cb, &indexes, &txs))) {
+            Err(e) => {
+                out.oracle_fail("btx-verifier-panic", &format!("{} panic={:?}", line, e.downcast_ref::<String>()));
+                "panic".into()
+            }
+            Ok(st) => match st.code() {
+                StatusCode::OK => "ok".into(),
+                StatusCode::BlockTransactionsLengthIsUnmatchedWithPendingCompactBlock => "length".into(),
+                StatusCode::BlockTransactionsShortIdsAreUnmatchedWithPendingCompactBlock => "shortids".into(),
+                c => format!("error-{}", c as u32),
+            },
+        }
+    }
+
+    /// one `unv` line: the real uncles verifier, then (on ok) the real reconstruct_block
+    fn unv(&self, out: &mut Out, line: &str) -> String {
+        let f = |k: &str| -> String { line.split(' ').find_map(|t| t.strip_prefix(&format!("{k}="))).unwrap_or_else(|| panic!("missing {k}")).to_string() };
+        let n_uncles: usize = f("uncles").parse().unwrap();
+        let idx = parse_list(&f("idx"));
+        let recv: Vec<UncleBlockView> = parse_list(&f("recv")).iter().map(|j| self.uncles[*j].clone()).collect();
+        let cb = self.simple_cb(&[], &[(0, 0)], n_uncles);
+        let indexes: Vec<u32> = idx.iter().map(|i| *i as u32).collect();
+        let st = match catch_unwind(AssertUnwindSafe(|| verif_block_uncles_verify(&cb, &indexes, &recv))) {
+            Ok(st) => st,
+            Err(e) => {
+                out.oracle_fail("verify-panic", &format!("{} panic={:?}", line, e.downcast_ref::<String>()));
+                return "panic".into();
+            }
+        };
+        match st.code() {
+            StatusCode::OK => {}
+            StatusCode::BlockUnclesLengthIsUnmatchedWithPendingCompactBlock => return "length".into(),
+            StatusCode::BlockUnclesAreUnmatchedWithPendingCompactBlock => return "unmatched".into(),
+            c => return format!("error-{}", c as u32),
+        }
+        let active_chain = self.relayer.shared().active_chain();
+        let r = catch_unwind(AssertUnwindSafe(|| self.rt.block_on(self.relayer.reconstruct_block(&active_chain, &cb, vec![], &indexes, &recv))));
+        match r {
+            Ok(_) => "ok total".into(),
+            Err(e) => {
+                let msg = e.downcast_ref::<String>().cloned().or_else(|| e.downcast_ref::<&str>().map(|s| s.to_string())).unwrap_or_default();
+                out.oracle_fail("reconstruct-panic", &format!("{}: BlockUnclesVerifier::verify said ok and reconstruct_block panics ({})", line, msg));
+                "ok panic".into()
+            }
+        }
+    }
+}
+
+fn gen_btxv(rng: &mut Rng) -> String {
+    let k = rng.range(1, 7) as usize;
+    let mut pool: Vec<usize> = (0..N_TX).collect();
+    rng.shuffle(&mut pool);
+    let body: Vec<usize> = pool[..k].to_vec();
+    let mut pre: Vec<(usize, usize)> = vec![(0, body[0])];
+    for (i, t) in body.iter().enumerate().skip(1) {
+        if rng.chance(1, 4) {
+            pre.push((i, *t));
+        }
+    }
+    let pre_idx: Vec<usize> = pre.iter().map(|p| p.0).collect();
+    let short_pos: Vec<usize> = (0..k).filter(|i| !pre_idx.contains(i)).collect();
+    let sids: Vec<usize> = short_pos.iter().map(|i| body[*i]).collect();
+    // the indexes "requested": a subset of the short-id positions, in order …
+    let mut idx: Vec<usize> = short_pos.iter().filter(|_| rng.chance(2, 3)).cloned().collect();
+    let mut txs: Vec<usize> = idx.iter().map(|i| body[*i]).collect();
+    // … or something another variant of the block would have produced
+    match rng.below(10) {
+        0 => idx.push(k),
+        1 => idx.push(k + rng.range(1, 3) as usize),
+        2 => idx.insert(0, *rng.pick(&[k, 1000, u32::MAX as usize])),
+        3 if !pre_idx.is_empty() => {
+            // a prefilled position (filter_map drops it)
+            let p = pre_idx[rng.below(pre_idx.len() as u64) as usize];
+            idx.push(p);
+            idx.sort();
+        }
+        4 if !idx.is_empty() => {
+            let d = idx[0];
+            idx.push(d);
+            txs.push(body[d]);
+        }
+        5 if idx.len() >= 2 => idx.swap(0, 1),
+        _ => {}
+    }
+    match rng.below(8) {
+        0 if !txs.is_empty() => {
+            txs.pop();
+        }
+        1 => txs.push(pool[k % N_TX]),
+        2 if txs.len() >= 2 => txs.swap(0, 1),
+        3 if !txs.is_empty() => txs[0] = pool[(k + 1) % N_TX],
+        _ => {}
+    }
+    let pre_s = pre.iter().map(|(a, b)| format!("{a}:{b}")).collect::<Vec<_>>().join(";");
+    format!("btxv sids={} pre={} idx={} txs={}", list(&sids), pre_s, list(&idx), list(&txs))
+}
+
+fn gen_unv(rng: &mut Rng) -> String {
+    let n = rng.below(4) as usize;
+    let mut idx: Vec<usize> = (0..n).filter(|_| rng.chance(2, 3)).collect();
+    let mut recv: Vec<usize> = idx.clone();
+    match rng.below(8) {
+        0 => idx.push(n),
+        1 => idx.push(n + 5),
+        2 if !idx.is_empty() => {
+            let d = idx[0];
+            idx.push(d);
+            recv.push(d);
+        }
+        3 if idx.len() >= 2 => {
+            idx.swap(0, 1);
+            recv.swap(0, 1);
+        }
+        _ => {}
+    }
+    match rng.below(8) {
+        0 | 1 if !recv.is_empty() => {
+            recv.pop();
+        }
+        2 if !recv.is_empty() => recv.clear(),
+        3 => recv.push(rng.below(3) as usize),
+        4 if recv.len() >= 2 => recv.swap(0, 1),
+        5 if !recv.is_empty() => recv[0] = (recv[0] + 1) % 3,
+        _ => {}
+    }
+    format!("unv uncles={} idx={} recv={}", n, list(&idx), list(&recv))
+}
+
 fn gen_recon(rng: &mut Rng) -> String {
     // the block body the sender has in mind
     let k = rng.range(1, 7) as usize;
@@ -510,6 +674,10 @@ pub fn run(opts: &Opts) {
         recv::run(opts, out);
         return;
     }
+    if stream == "proto" {
+        proto::run(opts, out);
+        return;
+    }
     let mut rng = Rng::new(opts.seed ^ 0xcb16);
     if stream == "frame" {
         std::panic::set_hook(Box::new(|_| {}));
@@ -548,6 +716,12 @@ pub fn run(opts: &Opts) {
             } else if l.starts_with("recon ") {
                 let ans = w.recon(&mut out, &l);
                 out.op(&l, &ans);
+            } else if l.starts_with("btxv ") {
+                let ans = w.btxv(&mut out, &l);
+                out.op(&l, &ans);
+            } else if l.starts_with("unv ") {
+                let ans = w.unv(&mut out, &l);
+                out.op(&l, &ans);
             } else {
                 eprintln!("C16 cb replay: unknown op {l}");
                 std::process::exit(3);
@@ -560,6 +734,21 @@ pub fn run(opts: &Opts) {
             let l = gen_recon(&mut rng);
             let ans = w.recon(&mut out, &l);
             out.nontrivial(format!("{}", ans));
+            out.op(&l, &ans);
+        }
+        // the BlockTransactions verifiers and the uncle indexing of reconstruct_block
+        for _ in 0..cases / 3 {
+            out.begin_case("btxv");
+            let l = gen_btxv(&mut rng);
+            let ans = w.btxv(&mut out, &l);
+            out.count(&format!("btxv-{}", ans));
+            out.nontrivial(format!("btxv-{}", ans));
+            out.op(&l, &ans);
+            out.begin_case("unv");
+            let l = gen_unv(&mut rng);
+            let ans = w.unv(&mut out, &l);
+            out.count(&format!("unv-{}", ans.replace(' ', "-")));
+            out.nontrivial(format!("unv-{}", ans));
             out.op(&l, &ans);
         }
     }
